@@ -68,7 +68,12 @@ EXTRA_EXT_TYPES = [0xFF01, 0x0017, 0x0010, 0x0023, 0x0000, 0x000F, 0x000B, 0x777
 def tls_conn(draw, combos=None, max_records=12, max_len=2000, delivery=None, ep=None, bytes_mode_limit=2500, shapes=True):
     suites = tlsref.load_suites()
     combos = combos or tlsref.all_combos()
-    code, ver, etm = draw(st.sampled_from(combos))
+    # version first (uniform), then a suite valid for it: the table has 5 TLS 1.3 entries among ~700 combinations
+    by_ver = {}
+    for c in combos:
+        by_ver.setdefault(c[1], []).append(c)
+    ver = draw(st.sampled_from(sorted(by_ver)))
+    code, ver, etm = draw(st.sampled_from(by_ver[ver]))
     s = suites[code]
     spec = {"kind": "tls", "seed": draw(SEED), "version": ver, "suite": code, "etm": etm}
     if shapes:
